@@ -27,10 +27,12 @@ MODULE = "cell/Geometry.tla"
 TOL = 1e-9
 S3 = math.sqrt(3.0)
 DEVS = ["RectangleContainmentIgnoresRotation", "BorderPointTwoNearestVertices", "RectanglePosSetterKeepsCorners",
-        "LayoutSkipsCentring", "Sec3SetPosKeepsSectors", "Sec3SetRadiusKeepsCentres"]
+        "LayoutSkipsCentring", "Sec3SetPosKeepsSectors", "Sec3SetRadiusKeepsCentres", "MoveBypassesPosSetter",
+        "WrapUsersUseCachedTranslation", "CircleBorderZeroRatioIsOne"]
 INVS = ["TypeOK", "VertexLaws", "ContainmentAgrees", "ContainmentLaws", "ZAgreesWithQ", "BorderAgrees", "BorderLaws",
         "LayoutLaws", "ClusterRadiusLaws", "Sec3NoOverlap", "DistLaws", "WrapLaws", "MutFresh"]
-ACTIONS = ["Contain", "Border", "Layout", "DistMat", "Wrap", "MutNew", "MutSetPos", "MutSetRot", "MutSetRad",
+ACTIONS = ["Contain", "Border", "Layout", "DistMat", "Wrap", "MutNew", "MutSetPos", "MutMoveRel", "MutMovePolar", "MutSetRot",
+           "MutSetRad", "MutAddUser", "MutDelUsers", "WrapSetPos", "WrapMoveRel", "WrapMovePolar", "WrapSetRaises",
            "Place", "PlaceCl", "PProc"]
 F_RECT = "RectangleContainmentIgnoresRotation"
 F_BORDER = "BorderPointTwoNearestVertices"
@@ -79,13 +81,13 @@ PFAR = pt(3, 2)
 
 def model(ops, shapes=(), rots=(0,), G=4, clusters=(), crots=(0,), ucells=(1,), uangles=(0,), urel=(),
           mutalpha=None, rel=(), dev=(), emit=True, invariants=INVS):
-    mutalpha = mutalpha or dict(base=[dict(kind="hex", w=Q0, h=Q0)], pos=[P0], r=[q(1)], rot=[0])
+    mutalpha = mutalpha or malpha([MUT_BASE["Cell"]], pos=[P0], r=[q(1)], rot=[0])
     defs = {"Ops": tlc.tla(set(ops)), "Shapes": tlc.tla(list(shapes)), "Rots": tlc.tla(set(rots)),
             "Clusters": tlc.tla(list(clusters)), "CRots": tlc.tla(set(crots)), "UCells": tlc.tla(list(ucells)),
             "UAngles": tlc.tla(list(uangles)), "URel": tlc.tla(list(urel)), "MutAlpha": tlc.tla(mutalpha),
             "RelCases": tlc.tla(list(rel)), "Dev": tlc.tla({k: (k in dev) for k in DEVS})}
     cfg = tlc.cfg_text(constants={"G": str(G)}, defs=defs, invariants=invariants,
-                       action_constraints=["Emit"] if emit else [])
+                       action_constraints=["Emit"] if emit else [], view="MutView" if "mut" in ops else None)
     return cfg, defs
 
 
@@ -353,12 +355,24 @@ def _sig(s, rot):
     return "(" + ", ".join(f"{a}={b}" for a, b in d.items()) + ")"
 
 
+def _ratio_forms(name):
+    """the Python values a ratio can be written as (boundary values of the argument included)"""
+    if name == "zero":
+        return [0, 0.0, np.float64(0.0), np.float32(0.0), -0.0]
+    if name == "one":
+        return [None, 1, 1.0, np.float64(1.0)]
+    if name == "half":
+        return [0.5, np.float64(0.5)]
+    return [1.0 / 1024, np.float64(1.0 / 1024)]
+
+
 def rc_border(e, seed):
     from pyphysim.cell import cell
     c, out = e["post"], e["out"]
     s, rot = c["s"], c["rot"]
     okc, probs = 0, []
     nonsq = s["kind"] == "rect" and s["w"] != s["h"]
+    ctr = pc(s["pos"])
     for obj in build(s, rot):
         name = type(obj).__name__
         if not verts_equal(obj, out["verts"]):
@@ -366,26 +380,40 @@ def rc_border(e, seed):
             continue
         wrong = []
         for k in range(12):
-            # the same direction written with different numbers of full turns
-            ang = 30.0 * k + (360.0 if k % 3 == 1 else -360.0 if k % 3 == 2 else 0.0)
-            for ratio, want in ((1.0, out["bp"][k]), (None, out["bp"][k]), (0.5, out["half"][k])):
-                got = obj.get_border_point(ang) if ratio is None else obj.get_border_point(ang, ratio)
-                if close(complex(got), pc(want)):
-                    okc += 1
-                else:
-                    wrong.append((ang, ratio, complex(got), pc(want)))
+            # the same direction written with different numbers of full turns, as int / float / numpy scalar
+            base = 30 * k
+            angles = [base, float(base), base + 360.0, base - 360, np.float64(base + 720), base - 720.0]
+            want = {"one": pc(out["bp"][k]), "half": pc(out["half"][k]), "zero": pc(out["zero"][k]), "tiny": pc(out["tiny"][k])}
+            for j, rname in enumerate(("one", "half", "zero", "tiny")):
+                forms = _ratio_forms(rname)
+                # every angle form with one ratio form, every ratio form with one angle form
+                pairs = [(a, forms[(k + i) % len(forms)]) for i, a in enumerate(angles)] + \
+                        [(angles[(k + j) % len(angles)], f) for f in forms]
+                for ang, ratio in pairs:
+                    got = obj.get_border_point(ang) if ratio is None else obj.get_border_point(ang, ratio)
+                    if close(complex(got), want[rname]):
+                        okc += 1
+                    else:
+                        wrong.append((ang, ratio, complex(got), want[rname]))
+            # a ratio far below the tolerance scale: linear between the centre and the TLC-emitted border point
+            got = complex(obj.get_border_point(base, 1e-9))
+            if abs(got - (ctr + 1e-9 * (want["one"] - ctr))) > 1e-12 * max(1.0, abs(ctr)):
+                wrong.append((base, 1e-9, got, ctr + 1e-9 * (want["one"] - ctr)))
         if wrong:
-            a, r, got, want = wrong[0]
-            probs.append(bad(f"{name}{_sig(s, rot)}.get_border_point({a}, {r}) = {got:.6f}, the boundary point in that "
-                             f"direction is {want:.6f} ({len(wrong)} such calls)", F_BORDER if nonsq else None))
+            a, r, got, want_ = wrong[0]
+            probs.append(bad(f"{name}{_sig(s, rot)}.get_border_point({a!r}, {r!r}) = {got:.6f}, the boundary point in that "
+                             f"direction scaled by the ratio is {want_:.6f} ({len(wrong)} such calls)", F_BORDER if nonsq else None))
             continue
         if isinstance(obj, cell.CellBase) and not isinstance(obj, cell.CellWrap):
             obj.add_border_user([30.0 * k for k in range(12)], 0.5)
+            obj.add_border_user([30 * k for k in range(12)], [0.0] * 6 + [1.0 / 1024] * 6)
+            obj.add_border_user(30.0 * 5, None)
             got = [u.pos for u in obj.users]
-            if len(got) != 12 or not all(close(g, pc(w)) for g, w in zip(got, out["half"])):
-                probs.append(bad(f"{name}{_sig(s, rot)}.add_border_user(angles, 0.5): users are not at the scaled border points"))
+            want = [pc(w) for w in out["half"]] + [pc(w) for w in out["zero"][:6]] + [pc(w) for w in out["tiny"][6:]] + [pc(out["bp"][5])]
+            if len(got) != len(want) or not all(close(g, w) for g, w in zip(got, want)):
+                probs.append(bad(f"{name}{_sig(s, rot)}.add_border_user(angles, ratios): users are not at the scaled border points"))
             else:
-                okc += 12
+                okc += len(want)
     return okc, probs
 
 
@@ -485,6 +513,36 @@ def rc_wrap(e, seed):
             probs.append(bad(f"{sig}: users of wrapped cell {key} are not the users of cell {wid} moved along"))
             break
 
+    # the wraps are live views: move an original cell (with users) in each of the three ways and read its wraps
+    if not probs:
+        for cid, how in ((1, "pos"), (8, "rel"), (19, "polar")):
+            orig = C.get_cell_by_id(cid)
+            before = orig.pos
+            if how == "pos":
+                orig.pos = orig.pos + (0.25 - 0.5j)
+            elif how == "rel":
+                orig.move_by_relative_coordinate(-0.5 + 0.125j)
+            else:
+                orig.move_by_relative_polar_coordinate(0.5, math.pi / 3)
+            rel = [u.pos - orig.pos for u in orig.users]
+            for key, w in W.items():
+                if int(key[4:].split("_")[0]) != cid:
+                    continue
+                grel = [u.pos - w.pos for u in w.users]
+                if len(grel) != len(rel) or not np.allclose(grel, rel, rtol=0, atol=TOL):
+                    probs.append(bad(f"{sig}: after moving cell {cid} ({how}) the users shown by its wrapped copy {key} are not "
+                                     f"the cell's users moved to the wrap"))
+                    break
+                if not np.allclose(np.asarray(w.vertices) - w.pos, np.asarray(orig.vertices) - orig.pos, rtol=0, atol=TOL):
+                    probs.append(bad(f"{sig}: after moving cell {cid} the polygon of its wrapped copy {key} changed shape"))
+                    break
+            if how == "pos":
+                orig.pos = before
+            else:
+                orig.move_by_relative_coordinate(before - orig.pos)
+            if probs:
+                break
+
     def key_of(i, p):
         return (i, round(p.real, 6) + 0.0, round(p.imag, 6) + 0.0)
     gs = sorted(key_of(i, p) for i, p in got)
@@ -565,133 +623,244 @@ def rc_pproc(e, seed):
     return c["n"], []
 
 
-# ----------------------------------------------------------------------------- setter machine
+# ----------------------------------------------------------------------------- object machine
+def _mk(kind, cls, w=Q0, h=Q0, cell=False, wrap=False):
+    return dict(kind=kind, cls=cls, w=w, h=h, cell=cell, wrap=wrap)
+
+
+MUT_BASE = {
+    "Node": _mk("node", "Node"),
+    "Hexagon": _mk("hex", "Hexagon"),
+    "Cell": _mk("hex", "Cell", cell=True),
+    "CellSquare": _mk("square", "CellSquare", w=q(5, 0, 2), cell=True),
+    "Rectangle": _mk("rect", "Rectangle", w=q(5, 0, 2), h=q(3, 0, 2)),
+    "Circle": _mk("circle", "Circle"),
+    "Cell3Sec": _mk("sec3", "Cell3Sec", cell=True),
+    "Cluster": _mk("cluster", "Cluster"),
+    "Wrap(Cell)": _mk("hex", "Cell", cell=True, wrap=True),
+    "Wrap(CellSquare)": _mk("square", "CellSquare", w=q(5, 0, 2), cell=True, wrap=True),
+    "Wrap(Cell3Sec)": _mk("sec3", "Cell3Sec", cell=True, wrap=True),
+}
+PA = P0
+PB = pt(q(1, 0, 2), q(0, 1, 2))      # PA + cis(60 degrees): reachable from PA by a polar move
+PC = P1
+WA = pt(3, 2)
+WB = pt(q(7, 0, 2), q(4, 1, 2))      # WA + cis(60 degrees)
+OFFS = [pt(q(1, 0, 4), q(1, 0, 8)), pt(q(-1, 0, 8), q(-1, 0, 4))]
+POLAR = [dict(rho=q(1), k=2), dict(rho=q(1), k=8)]
+
+
+def malpha(base, pos=(PA, PB, PC), r=(q(3, 0, 2), q(2)), rot=(0, 30, -90), wpos=(), off=OFFS, polar=POLAR):
+    return dict(base=list(base), pos=list(pos), r=list(r), rot=list(rot), wpos=list(wpos), off=list(off), polar=list(polar))
+
+
 def _mut_new(alpha, call):
     from pyphysim.cell import shapes, cell
     b = alpha["base"][call[1] - 1]
     pos, r, rot = pc(alpha["pos"][call[2] - 1]), qf(alpha["r"][call[3] - 1]), alpha["rot"][call[4] - 1]
-    k = b["kind"]
-    if k == "hex":
-        return cell.Cell(pos, r, 3, rot)
-    if k == "sec3":
-        return cell.Cell3Sec(pos, r, 3, rot)
-    if k == "square":
-        return cell.CellSquare(pos, qf(b["w"]), 3, rot)
-    if k == "rect":
+    cls = b["cls"]
+    if cls == "Node":
+        obj = cell.Node(pos)
+    elif cls == "Hexagon":
+        obj = shapes.Hexagon(pos, r, rot)
+    elif cls == "Cell":
+        obj = cell.Cell(pos, r, 3, rot)
+    elif cls == "Cell3Sec":
+        obj = cell.Cell3Sec(pos, r, 3, rot)
+    elif cls == "CellSquare":
+        obj = cell.CellSquare(pos, qf(b["w"]), 3, rot)
+    elif cls == "Rectangle":
         hw, hh = qf(b["w"]) / 2, qf(b["h"]) / 2
-        return shapes.Rectangle(pos - complex(hw, hh), pos + complex(hw, hh), rot)
-    if k == "circle":
-        return shapes.Circle(pos, r)
-    raise ValueError(k)
+        obj = shapes.Rectangle(pos - complex(hw, hh), pos + complex(hw, hh), rot)
+    elif cls == "Circle":
+        obj = shapes.Circle(pos, r)
+    elif cls == "Cluster":
+        obj = cell.Cluster(r, 3, pos, None, "simple", rot)
+    else:
+        raise ValueError(cls)
+    wrap = cell.CellWrap(pc(alpha["wpos"][call[5] - 1]), obj, include_users_bool=True) if call[5] else None
+    return obj, wrap
 
 
 def mut_path(job):
     try:
         return _guarded(_mut_path, job, 60)
     except _Hang:
-        return 0, [bad(f"setter history {[_call_text(job[0], x['post']['call']) for x in job[1]]}: a call did not return "
+        return 0, [bad(f"history {[_call_text(job[0], x['call']) for x in job[1]]}: a call did not return "
                        f"within 60 s (rejection sampling never finds a point inside the cell)")]
 
 
-def _mut_path(job):
-    """job = (alpha, edges, seed) -> (steps_ok, problems): one history of setter calls on a real object"""
+def _apply(alpha, obj, wrap, e):
+    """execute the call of edge e on the real objects; returns None or a problem text"""
     from pyphysim.cell import cell
+    call = e["call"]
+    pre = e["pre"]
+    name = call[0]
+    target = wrap if name.startswith("w") else obj
+    raises = call[-1] == "raises"
+    try:
+        if name in ("pos", "wpos"):
+            target.pos = pc((alpha["wpos"] if name == "wpos" else alpha["pos"])[call[1] - 1])
+        elif name in ("rel", "wrel"):
+            cur, new = (pre["wpos"], alpha["wpos"][call[1] - 1]) if name == "wrel" else (pre["pos"], alpha["pos"][call[1] - 1])
+            target.move_by_relative_coordinate(pc(new) - pc(cur))
+        elif name in ("polar", "wpolar"):
+            pol = alpha["polar"][call[1] - 1]
+            target.move_by_relative_polar_coordinate(qf(pol["rho"]), pol["k"] * math.pi / 6.0)
+        elif name in ("rot", "wrot"):
+            target.rotation = alpha["rot"][call[1] - 1] if name == "rot" else 30
+        elif name in ("rad", "wrad"):
+            target.radius = qf(alpha["r"][call[1] - 1]) if name == "rad" else 1.0
+        elif name == "adduser":
+            obj.add_user(cell.Node(pc(e["out"]["store"]["users"][-1])), relative_pos_bool=False)
+        elif name == "delusers":
+            obj.delete_all_users()
+        else:
+            raise ValueError(name)
+    except AttributeError as ex:
+        return None if raises else f"raised AttributeError: {ex}"
+    if raises:
+        return "did not raise (this mutator is disabled for this class) - the object was changed behind its views"
+    return None
+
+
+def _observe(obj, wrap, e):
+    """compare every public view of the object(s) with the post-state of edge e; None or a problem text"""
+    import copy
+    post, out = e["post"], e["out"]
+    kind = post["kind"]
+    if not close(obj.pos, pc(post["pos"])):
+        return f"pos is {obj.pos}, expected {pc(post['pos'])}"
+    if kind == "node":
+        return None
+    if obj.rotation != post["rot"]:
+        return f"rotation is {obj.rotation}, expected {post['rot']}"
+    if kind == "cluster":
+        got = [x.pos for x in obj]
+        if len(got) != len(out["cells"]) or not all(close(g, pc(w)) for g, w in zip(got, out["cells"])):
+            return "the cells of the cluster are not at the layout positions for the reported cluster position"
+        return None
+    if kind in ("hex", "circle", "sec3") and not close(obj.radius, qf(post["r"])):
+        return f"radius is {obj.radius}, expected {qf(post['r'])}"
+    if not verts_equal(obj, out["verts"]):
+        return "vertices differ from a fresh object with the current position/size/rotation"
+    g = int(round((math.sqrt(len(out["res"])) - 1) / 2))
+    gw = 2 * g + 1
+    for n, code in enumerate(out["res"]):
+        if code != 2:
+            p = complex((n // gw - g) / 2.0, (n % gw - g) / 2.0)
+            if bool(obj.is_point_inside_shape(p)) != (code == 1):
+                return f"is_point_inside_shape({p}) = {code != 1}, a fresh object says {code == 1}"
+    if post["cell"]:
+        want = [pc(u) for u in out["store"]["users"]]
+        got = [u.pos for u in obj.users]
+        if len(got) != len(want) or obj.num_users != len(want):
+            return f"{len(got)} users, expected {len(want)}"
+        for gu, wu in zip(got, want):
+            if not close(gu, wu):
+                return (f"user at {gu:.4f}, expected {wu:.4f}: the users did not stay at their place relative to the cell "
+                        f"(inside the cell: {inside_f([pc(v) for v in out['verts']], gu)})")
+    if kind == "sec3":
+        # sectors: observable through random placement in a sector (rel), on a copy (the users are part of the state)
+        cp = copy.deepcopy(obj)
+        cp.delete_all_users()
+        for j in (1, 2, 3):
+            cp.add_random_users_in_sector(1, j, None, 0.3)
+            V = [pc(p) for p in out["secv"][j - 1]]
+            u = cp.users[-1].pos
+            if not inside_f(V, u):
+                return f"a user placed in sector {j} lies outside that sector"
+            if abs(u - pc(out["store"]["secc"][j - 1])) < 0.3 * qf(out["store"]["secr"]) - TOL:
+                return f"a user placed in sector {j} is closer to its centre than requested"
+        secs = [getattr(obj, n, None) for n in ("_sec1", "_sec2", "_sec3")]
+        if all(x is not None for x in secs):  # private cross-check, skipped when absent
+            st = out["store"]
+            for j, sc in enumerate(secs):
+                if not (close(sc.pos, pc(st["secc"][j])) and close(sc.radius, qf(st["secr"])) and sc.rotation == st["secrot"]):
+                    return f"sector {j + 1} is stale (centre {sc.pos:.4f}, radius {sc.radius:.4f}, rotation {sc.rotation})"
+    if wrap is not None:
+        if not close(wrap.pos, pc(post["wpos"])):
+            return f"wrap.pos is {wrap.pos}, expected {pc(post['wpos'])}"
+        if wrap.rotation != post["rot"] or not close(wrap.radius, obj.radius):
+            return "wrap.rotation / wrap.radius are not those of the wrapped cell"
+        if not verts_equal(wrap, out["wverts"]):
+            return "wrap.vertices are not the wrapped cell's polygon at the wrap's position"
+        want = [pc(u) for u in out["wusers"]]
+        got = [u.pos for u in wrap.users]
+        if len(got) != len(want) or wrap.num_users != len(want):
+            return f"wrap shows {len(got)} users, expected {len(want)}"
+        for gu, wu in zip(got, want):
+            if not close(gu, wu):
+                return (f"wrap.users: user at {gu:.4f}, expected {wu:.4f} (the wrapped cell's user moved to the wrap; inside the "
+                        f"wrap: {inside_f([pc(v) for v in out['wverts']], gu)})")
+    return None
+
+
+def _mut_path(job):
+    """job = (alpha, edges, seed) -> (steps_ok, problems): one history of mutator calls on real objects"""
     alpha, edges, seed = job
     np.random.seed(seed)
-    obj = None
+    obj = wrap = None
     okc = 0
     moved = False
     for i, e in enumerate(edges):
-        post, out = e["post"], e["out"]
-        call = post["call"]
-        kind = post["kind"]
-        is_cell = kind in ("hex", "square", "sec3")
-        what = None
+        call = e["call"]
+        kind = e["post"]["kind"]
         try:
-            users_before = None
             if call[0] == "new":
-                obj = _mut_new(alpha, call)
+                obj, wrap = _mut_new(alpha, call)
+                what = None
                 moved = False
-            elif call[0] == "pos":
-                if is_cell:
-                    # users well inside the cell (relative coordinates) have to move with it
-                    obj.delete_all_users()
-                    for rel in (0.1 + 0.1j, -0.2j, -0.15 + 0.05j):
-                        obj.add_user(cell.Node(rel))
-                    users_before = [u.pos - obj.pos for u in obj.users]
-                moved = moved or not close(obj.pos, pc(alpha["pos"][call[1] - 1]))
-                obj.pos = pc(alpha["pos"][call[1] - 1])
-            elif call[0] == "rot":
-                obj.rotation = alpha["rot"][call[1] - 1]
-            elif call[0] == "rad":
-                obj.radius = qf(alpha["r"][call[1] - 1])
-            if not close(obj.pos, pc(post["pos"])) or obj.rotation != post["rot"] or \
-                    (kind in ("hex", "circle", "sec3") and not close(obj.radius, qf(post["r"]))):
-                what = "pos/radius/rotation getters do not return what was set"
-            if what is None and not verts_equal(obj, out["verts"]):
-                what = "vertices differ from a fresh object with the current position/size/rotation"
+            else:
+                moved = moved or call[0] in ("pos", "rel", "polar")
+                what = _apply(alpha, obj, wrap, e)
             if what is None:
-                g = int(round((math.sqrt(len(out["res"])) - 1) / 2))
-                gw = 2 * g + 1
-                for n, code in enumerate(out["res"]):
-                    if code == 2:
-                        continue
-                    p = complex((n // gw - g) / 2.0, (n % gw - g) / 2.0)
-                    if bool(obj.is_point_inside_shape(p)) != (code == 1):
-                        what = f"is_point_inside_shape({p}) = {code != 1}, a fresh object says {code == 1}"
-                        break
-            if what is None and users_before is not None:
-                V = [pc(p) for p in out["verts"]]
-                us = [u.pos for u in obj.users]
-                if len(us) != 3 or not all(close(u - obj.pos, w) for u, w in zip(us, users_before)):
-                    what = "users did not move with the cell"
-                elif not all(inside_f(V, u) for u in us):
-                    what = "users lie outside the cell after the move"
-            if what is None and kind == "sec3":
-                # sectors: observable through random placement in a sector (rel)
-                obj.delete_all_users()
-                for j in (1, 2, 3):
-                    obj.add_random_users_in_sector(2, j, None, 0.3)
-                    V = [pc(p) for p in out["secv"][j - 1]]
-                    us = [u.pos for u in obj.users[-2:]]
-                    ctr = pc(out["store"]["secc"][j - 1])
-                    if not all(inside_f(V, u) for u in us):
-                        what = f"users placed in sector {j} lie outside that sector"
-                        break
-                    if not all(abs(u - ctr) >= 0.3 * qf(out["store"]["secr"]) - TOL for u in us):
-                        what = f"users placed in sector {j} are closer to its centre than requested"
-                        break
-                obj.delete_all_users()
-                secs = [getattr(obj, n, None) for n in ("_sec1", "_sec2", "_sec3")]
-                if what is None and all(x is not None for x in secs):  # private cross-check, skipped when absent
-                    st = out["store"]
-                    for j, sc in enumerate(secs):
-                        if not (close(sc.pos, pc(st["secc"][j])) and close(sc.radius, qf(st["secr"])) and sc.rotation == st["secrot"]):
-                            what = f"sector {j + 1} is stale (centre {sc.pos:.4f}, radius {sc.radius:.4f}, rotation {sc.rotation})"
-                            break
+                what = _observe(obj, wrap, e)
         except _Hang:
             raise
         except Exception as ex:
             what = f"raised {type(ex).__name__}: {ex}"
         if what:
             fid = F_MOVE if (kind in ("rect", "square") and moved) else None
-            if fid is None and kind in ("rect", "square") and post["rot"] % (90 if kind == "square" else 180) != 0 \
+            if fid is None and kind in ("rect", "square") and e["post"]["rot"] % (90 if kind == "square" else 180) != 0 \
                     and "is_point_inside_shape" in what:
                 fid = F_RECT
-            name = type(obj).__name__ if obj is not None else kind
-            return okc, [bad(f"{name} after {[_call_text(alpha, x['post']['call']) for x in edges[:i + 1]]}: {what}", fid)]
+            name = e["post"]["cls"] + ("+CellWrap" if e["post"]["wpos"] else "")
+            return okc, [bad(f"{name} after {[_call_text(alpha, x['call']) for x in edges[:i + 1]]}: {what}", fid)]
         okc += 1
     return okc, []
 
 
 def _call_text(alpha, call):
-    if call[0] == "new":
-        return f"new(pos={pc(alpha['pos'][call[2] - 1])}, r={qf(alpha['r'][call[3] - 1])}, rotation={alpha['rot'][call[4] - 1]})"
-    if call[0] == "pos":
-        return f"pos={pc(alpha['pos'][call[1] - 1])}"
-    if call[0] == "rot":
+    n = call[0]
+    if n == "new":
+        w = f", wrap at {pc(alpha['wpos'][call[5] - 1])}" if call[5] else ""
+        return f"new(pos={pc(alpha['pos'][call[2] - 1])}, r={qf(alpha['r'][call[3] - 1])}, rotation={alpha['rot'][call[4] - 1]}{w})"
+    if n in ("pos", "rel"):
+        t = pc(alpha["pos"][call[1] - 1])
+        return f"pos={t}" if n == "pos" else f"move_by_relative_coordinate(to {t})"
+    if n in ("wpos", "wrel"):
+        t = pc(alpha["wpos"][call[1] - 1])
+        return f"wrap.pos={t}" if n == "wpos" else f"wrap.move_by_relative_coordinate(to {t})"
+    if n in ("polar", "wpolar"):
+        pol = alpha["polar"][call[1] - 1]
+        return f"{'wrap.' if n == 'wpolar' else ''}move_by_relative_polar_coordinate({qf(pol['rho'])}, {30 * pol['k']} deg)"
+    if n == "rot":
         return f"rotation={alpha['rot'][call[1] - 1]}"
-    return f"radius={qf(alpha['r'][call[1] - 1])}"
+    if n == "rad":
+        return f"radius={qf(alpha['r'][call[1] - 1])}"
+    return {"adduser": "add_user", "delusers": "delete_all_users", "wrot": "wrap.rotation=30", "wrad": "wrap.radius=1"}[n]
+
+
+def mut_edges(emitted):
+    """emitted transitions of the object machine -> edges for graph.py: the label of the call is not part
+    of the state (TLC identifies states through VIEW MutView)"""
+    res = []
+    for e in emitted:
+        pre = {k: v for k, v in e["pre"].items() if k != "call"}
+        post = {k: v for k, v in e["post"].items() if k != "call"}
+        res.append({"pre": pre, "post": post, "call": e["post"]["call"], "out": e["out"]})
+    return res
 
 
 # ----------------------------------------------------------------------------- orchestration
@@ -729,29 +898,39 @@ def plan(ctx):
     return runs
 
 
-MUT_BASE = [dict(kind="hex", w=Q0, h=Q0), dict(kind="sec3", w=Q0, h=Q0), dict(kind="square", w=q(5, 0, 2), h=Q0),
-            dict(kind="rect", w=q(5, 0, 2), h=q(3, 0, 2)), dict(kind="circle", w=Q0, h=Q0)]
-
-
-def mut_alpha(th):
-    if th:
-        return dict(base=MUT_BASE, pos=[P0, P1, P3], r=[q(3, 0, 2), q(2)], rot=[0, 30, -90, 240, 690])
-    return dict(base=MUT_BASE, pos=[P0, P1], r=[q(3, 0, 2), q(2)], rot=[0, 30, -90])
-
-
 def mut_runs(th):
     """one TLC process per kind of object (the machine of each kind is explored completely)"""
-    a = mut_alpha(th)
-    return [(f"mut/{b['kind']}", dict(ops={"mut"}, mutalpha=dict(a, base=[b]), G=3)) for b in a["base"]]
+    B = MUT_BASE
+    rots3 = (0, 30, -90, 240, 690) if th else (0, 30, -90)
+    rots2 = (0, 30, -90) if th else (0, 30)
+    G = 3 if th else 2
+    runs = [
+        ("Node", malpha([B["Node"]], r=[q(1)], rot=[0])),
+        ("Hexagon", malpha([B["Hexagon"]], rot=rots2)),
+        ("Cell", malpha([B["Cell"]], rot=rots3)),
+        ("CellSquare", malpha([B["CellSquare"]], r=[q(1)], rot=rots3)),
+        ("Rectangle", malpha([B["Rectangle"]], r=[q(1)], rot=rots3)),
+        ("Circle", malpha([B["Circle"]], rot=[0])),
+        ("Cell3Sec", malpha([B["Cell3Sec"]], rot=rots2)),
+        ("Cluster", malpha([B["Cluster"]], pos=[PA, PB], r=[q(3, 0, 2)], rot=[0, 30])),
+        ("Wrap(Cell)", malpha([B["Wrap(Cell)"]], pos=[PA, PB] + ([PC] if th else []), rot=rots2, wpos=[WA, WB])),
+        ("Wrap(CellSquare)", malpha([B["Wrap(CellSquare)"]], pos=[PA, PB], r=[q(1)], rot=rots2, wpos=[WA, WB])),
+    ]
+    if th:
+        runs.append(("Wrap(Cell3Sec)", malpha([B["Wrap(Cell3Sec)"]], pos=[PA, PB], rot=[0, 30], wpos=[WA, WB])))
+    return [(f"mut/{n}", dict(ops={"mut"}, mutalpha=a, G=G)) for n, a in runs]
 
 
 DEV_MODELS = {
     F_RECT: ("ContainmentAgrees", dict(ops={"contain"}, shapes=[shape("rect", P0, w=q(5, 0, 2), h=q(3, 0, 2))], rots=[0, 30], G=3)),
     F_BORDER: ("BorderAgrees", dict(ops={"border"}, shapes=[shape("rect", P0, w=q(3), h=q(5, 0, 4), rad=q(13, 0, 8))], rots=[0], G=1)),
     "LayoutSkipsCentring": ("LayoutLaws", dict(ops={"layout"}, clusters=[cluster("simple", 3, q(1), P1)], crots=[0])),
-    F_MOVE: ("MutFresh", dict(ops={"mut"}, G=1, mutalpha=dict(base=[MUT_BASE[2]], pos=[P0, P1], r=[q(1)], rot=[0]))),
-    "Sec3SetPosKeepsSectors": ("MutFresh", dict(ops={"mut"}, G=1, mutalpha=dict(base=[MUT_BASE[1]], pos=[P0, P1], r=[q(1)], rot=[0]))),
-    "Sec3SetRadiusKeepsCentres": ("MutFresh", dict(ops={"mut"}, G=1, mutalpha=dict(base=[MUT_BASE[1]], pos=[P0], r=[q(1), q(2)], rot=[30]))),
+    F_MOVE: ("MutFresh", dict(ops={"mut"}, G=1, mutalpha=malpha([MUT_BASE["CellSquare"]], pos=[PA, PC], r=[q(1)], rot=[0]))),
+    "Sec3SetPosKeepsSectors": ("MutFresh", dict(ops={"mut"}, G=1, mutalpha=malpha([MUT_BASE["Cell3Sec"]], pos=[PA, PC], r=[q(1)], rot=[0]))),
+    "Sec3SetRadiusKeepsCentres": ("MutFresh", dict(ops={"mut"}, G=1, mutalpha=malpha([MUT_BASE["Cell3Sec"]], pos=[PA], r=[q(1), q(2)], rot=[30]))),
+    "MoveBypassesPosSetter": ("MutFresh", dict(ops={"mut"}, G=1, mutalpha=malpha([MUT_BASE["Cell"]], pos=[PA, PB], r=[q(1)], rot=[0]))),
+    "WrapUsersUseCachedTranslation": ("MutFresh", dict(ops={"mut"}, G=1, mutalpha=malpha([MUT_BASE["Wrap(Cell)"]], pos=[PA, PB], r=[q(1)], rot=[0], wpos=[WA]))),
+    "CircleBorderZeroRatioIsOne": ("BorderAgrees", dict(ops={"border"}, shapes=[shape("circle", P1, r=q(2))], rots=[0], G=1)),
 }
 
 
@@ -784,7 +963,9 @@ def _run_model(kw, **tk):
 
 OP_ACTION = {"contain": "Contain", "border": "Border", "layout": "Layout", "distmat": "DistMat", "wrap": "Wrap",
              "place": "Place", "placecl": "PlaceCl", "pproc": "PProc"}
-CALL_ACTION = {"new": "MutNew", "pos": "MutSetPos", "rot": "MutSetRot", "rad": "MutSetRad"}
+CALL_ACTION = {"new": "MutNew", "pos": "MutSetPos", "rel": "MutMoveRel", "polar": "MutMovePolar", "rot": "MutSetRot",
+               "rad": "MutSetRad", "adduser": "MutAddUser", "delusers": "MutDelUsers", "wpos": "WrapSetPos",
+               "wrel": "WrapMoveRel", "wpolar": "WrapMovePolar", "wrot": "WrapSetRaises", "wrad": "WrapSetRaises"}
 
 
 def _count_actions(ctx, emitted):
@@ -874,14 +1055,14 @@ def run(ctx):
     pjobs = []
     gstat = {}
     for label, kw, r in mres:
-        g = graph.Graph(r.emitted, label=lambda e: graph.key(e["post"]["call"]))
+        g = graph.Graph(mut_edges(r.emitted), label=lambda e: graph.key(e["call"]))
         root = g.roots()[0]
-        paths = g.transition_cover(root, max_len=10, rng=rng)
-        paths += g.random_walks(root, 150 if th else 12, 8, rng)
+        paths = g.transition_cover(root, max_len=12, rng=rng)
+        paths += g.random_walks(root, 150 if th else 12, 10, rng)
         for p in paths:
             pjobs.append((kw["mutalpha"], g.path_edges(p), (ctx.seed * 104729 + len(pjobs)) % (2 ** 31)))
         for _, _, e in g.edges:
-            ctx.distinct.add("mut" + graph.key(e["pre"]) + graph.key(e["post"]["call"]))
+            ctx.distinct.add("mut" + graph.key(e["pre"]) + graph.key(e["call"]))
         gstat[label] = {"states": len(g.nodes), "transitions": len(g.edges), "paths": len(paths)}
     pres = pool_map(mut_path, pjobs, chunksize=max(1, len(pjobs) // 64))
     for job, (okc, probs) in zip(pjobs, pres):
@@ -895,7 +1076,7 @@ def run(ctx):
                 ctx.violation(p["what"], case)
     ctx.notes["setter_machines"] = gstat
     if mres:
-        e = mres[1][2].emitted[len(mres[1][2].emitted) // 2]
+        e = mres[-1][2].emitted[len(mres[-1][2].emitted) // 2]
         ctx.sample({"op": "mut", "pre": e["pre"], "post": e["post"], "expected": _trim(e["out"])}, limit=8)
     ctx.exhaustive = True
     # ---- stage T
